@@ -300,6 +300,17 @@ func (t TV) Go() any {
 		return func() {}
 	case "struct{}":
 		return struct{}{}
+	case "anonRowsA": // two anonymous struct types with the same JSON tags on differently placed fields
+		return []struct {
+			Title string `json:"title"`
+			ID    int    `json:"id"`
+		}{{"Dr", 7}, {"Mx", 8}}
+	case "anonRowsB":
+		return []struct {
+			ID    int    `json:"id"`
+			Mail  string `json:"mail"`
+			Title string `json:"title"`
+		}{{9, "n@example.org", "nut"}}
 	}
 	panic("typed: unknown kind " + t.K)
 }
